@@ -101,6 +101,13 @@ func (c *vConn) Connect(context.Context) (Connection, error) { return c, nil }
 func (c *vConn) SessionID() string                           { return "" }
 
 func (c *vConn) Read(ctx context.Context) (jsonrpc.Message, error) {
+	// a closed transport delivers nothing more, even if messages are still queued
+	select {
+	case <-c.closed:
+		c.log.emit("rd.err", "kind", "closed")
+		return nil, io.EOF
+	default:
+	}
 	select {
 	case r := <-c.rd:
 		if r.err != nil {
